@@ -943,6 +943,25 @@ def gauss_specs(ctx, n_cases, deep=False):
         kde = C['GaussianKDE'] if variant == 'kde' else Univariate(candidates=[C['GaussianKDE']])
         g = GaussianMultivariate(distribution={'ts': kde, 'len': kde, 'x': C['GaussianUnivariate']})
         out.append((('str', 'dict', ('rel-epoch:' + variant, 'rel-offset1:' + variant, 'GaussianUnivariate'), n), g, df, df))
+    # model SHAPES at the small end: exactly 1 and 2 columns, constant / non-constant / mixed, cheap marginals
+    marg = {'gauss': lambda: C['GaussianUnivariate'], 'uniform': lambda: C['UniformUnivariate'], 'kde': lambda: C['GaussianKDE'],
+            'wrapper': lambda: Univariate(candidates=[C['GaussianUnivariate'], C['UniformUnivariate']]),
+            'default': lambda: None}
+    shapes = [('c',), ('d',), ('c', 'c'), ('c', 'd'), ('d', 'c'), ('d', 'd')]
+    for shape in shapes:
+        for mk in (list(marg) if deep or len(shape) == 1 else rng.sample(list(marg), 2)):
+            rs = np.random.RandomState(rng.getrandbits(32))
+            n = rng.randint(30, 60)
+            z = rs.normal(size=(n, 2))
+            z[:, 1] += 0.8 * z[:, 0]
+            labels = rng.choice([['p', 'q'], [0, 1], [7, 3]])[:len(shape)]
+            cols = {lab: (np.full(n, rng.choice([2.5, 0.0, 0.1])) if kind == 'c' else z[:, j])
+                    for j, (lab, kind) in enumerate(zip(labels, shape))}
+            df = pd.DataFrame(cols)
+            dist = marg[mk]()
+            g = GaussianMultivariate() if dist is None else GaussianMultivariate(distribution=dist)
+            data = df.to_numpy() if labels == [0, 1][:len(shape)] and rng.random() < 0.5 else df
+            out.append((('small:' + '+'.join(shape), mk, tuple(str(x) for x in labels), n), g, data, df))
     # columns with FEW distinct values (binary flag, 95/5 flag, three levels) modelled by a KDE / a wrapper selecting it
     for variant in ('kde', 'wrapper') if deep else (rng.choice(['kde', 'wrapper']),):
         rs = np.random.RandomState(rng.getrandbits(32))
@@ -1201,6 +1220,13 @@ def vine_specs(ctx, n_each, deep=False):
             trunc = rng.choice([3, 3, 2, 1, d])
             out.append(((vt, d, n, trunc, 'str' if isinstance(labels[0], str) else 'int'), VineCopula(vt),
                         pd.DataFrame(Z, columns=labels), trunc))
+    # the minimum column count: two columns (a single edge, a single tree)
+    for vt in ('center', 'direct', 'regular'):
+        rs = np.random.RandomState(rng.getrandbits(32))
+        n = rng.randint(40, 60)
+        z = rs.normal(size=(n, 2))
+        z[:, 1] += rng.choice([0.9, -0.7, 0.3]) * z[:, 0]
+        out.append(((vt, 2, n, 3, 'min-columns'), VineCopula(vt), pd.DataFrame(z, columns=rng.choice([['a', 'b'], [0, 1]])), 3))
     # fit HISTORIES: a vine object fitted before on another table (other width, other truncation)
     for vt in (('center', 'direct', 'regular') if deep else (rng.choice(['center', 'direct', 'regular']),)):
         rs = np.random.RandomState(rng.getrandbits(32))
